@@ -91,8 +91,33 @@ def drive(case: dict):
         else:
             accepted.append(neutral)
 
+    if case.get("pregen") and cls == "graph":
+        # the caller creates every graph() generator first and consumes them afterwards
+        gens = []
+        for i, st in enumerate(seq):
+            raw = mutate(st, slot, cause, nested) if i == pos else st
+            st_api = to_api(raw, api)
+            g = st_api[3] if len(st_api) > 3 else to_api((T.DEFAULT,), api)[0]
+            neutral = ("?bad-accepted",) if i == pos else T.norm_st(st)
+            try:
+                gens.append((i, neutral, stream.graph(g, [st_api[:3]])))
+            except Exception as e:  # noqa: BLE001
+                gens.append((i, neutral, e))
+        for i, neutral, gen in gens:
+            try:
+                if isinstance(gen, Exception):
+                    raise gen
+                for fr in gen:
+                    emit(fr)
+            except Exception as e:  # noqa: BLE001
+                raised_at.append((i, type(e).__name__))
+            else:
+                accepted.append(neutral)
+        seq_done = True
+    else:
+        seq_done = False
     reenter = case.get("reenter")
-    for i, st in enumerate(seq):
+    for i, st in enumerate(seq if not seq_done else ()):
         if reenter and i > pos:
             # the caller hands the remaining statements to the integration's stream_frames()
             if api == "generic":
@@ -213,6 +238,8 @@ def shard(job) -> dict:
                 variants += [{**base, "ns_after": iri} for iri in NS_AFTER]
             if pos < n - 1 and frame_size == 250 and cls != "graph" and n <= 3:
                 variants.append({**base, "reenter": True})
+            if cls == "graph" and cause != "short_tuple" and n >= 2:
+                variants.append({**base, "pregen": True})
             for case in variants:
                 acc.evals += 1
                 try:
